@@ -53,6 +53,15 @@ class Prop:
         return None
 
 
+def pick(key, rate: int, seed: int = 0) -> bool:
+    """deterministic pseudo-random sub-sampling of enumerated configurations
+    (modular strides alias with the enumeration order and lose whole classes)"""
+    if rate <= 1:
+        return True
+    h = hashlib.md5((repr(key) + f'/{seed}').encode()).hexdigest()
+    return int(h, 16) % rate == 0
+
+
 def load_prop(pid: str) -> Prop:
     mod = importlib.import_module(f'vkit.props.{pid}')
     return mod.PROP
